@@ -8,6 +8,7 @@
 #include "common/vh.hpp"
 
 #include <climits>
+#include <limits>
 
 using namespace vh;
 
@@ -591,6 +592,35 @@ struct SDrv {
             emit(Fact("has_single_bit", K).val("a", a).num("r", sg ? 0 : int(r)).signal(sg), tn, 0, "scalar");
         }
         signed_bitfn();
+        literal_bitfn();
+    }
+
+    // The same functions on *compile-time constant* arguments: the optimiser may
+    // fold the call, and an implementation that relies on undefined behaviour
+    // (a shift by the full width, say) can fold to a different value than it
+    // computes at run time.
+#define VH_LIT(OP, VALUE)                                                              \
+    {                                                                                  \
+        T r = T(0);                                                                    \
+        int sg = guarded([&] { r = T(avel::OP(T(VALUE))); });                          \
+        emit(Fact(#OP, K).val("a", T(VALUE)).val("r", sg ? T(0) : r).signal(sg), tn, 0, "scalar_literal"); \
+    }
+#define VH_LITS(OP)                                                                    \
+    VH_LIT(OP, 0) VH_LIT(OP, 1) VH_LIT(OP, 2) VH_LIT(OP, 3) VH_LIT(OP, 4) VH_LIT(OP, 5) VH_LIT(OP, 127) VH_LIT(OP, 128)       \
+    VH_LIT(OP, std::numeric_limits<T>::max()) VH_LIT(OP, std::numeric_limits<T>::max() - 1)                                  \
+    VH_LIT(OP, std::numeric_limits<T>::max() / 2) VH_LIT(OP, std::numeric_limits<T>::max() / 2 + 1)                          \
+    VH_LIT(OP, std::numeric_limits<T>::max() / 2 + 2)
+    template<class TT = T>
+    typename std::enable_if<!std::is_signed<TT>::value>::type literal_bitfn() {
+        set_label(tn, "bitfn_literal");
+        VH_LITS(popcount) VH_LITS(countl_zero) VH_LITS(countl_one) VH_LITS(countr_zero) VH_LITS(countr_one)
+        VH_LITS(bit_width) VH_LITS(bit_floor) VH_LITS(bit_ceil) VH_LITS(byteswap)
+    }
+    template<class TT = T>
+    typename std::enable_if<std::is_signed<TT>::value>::type literal_bitfn() {
+        set_label(tn, "bitfn_literal");
+        VH_LITS(popcount) VH_LITS(countl_zero) VH_LITS(countl_one) VH_LITS(countr_zero) VH_LITS(countr_one) VH_LITS(byteswap)
+        VH_LITS(countl_sign)
     }
 
     template<class TT = T>
